@@ -89,23 +89,53 @@ def oracle (obs : List (List String × String)) : Verdict :=
   let goodT := match good with
     | (.open_ _, .ok) :: _ => goodT.drop 1
     | _ => goodT
-  let vs := Spec.C17.judgeCase nsh [] body
   let ok := Spec.C17.holdsOn good && badLines.isEmpty && eok
   -- the verdict list skips acknowledged history ops: pair it back with the judged observations
-  let judged := goodT.filter fun (_, op, ans) => match op, ans with
-    | .write .., .ok => false
-    | .del .., .ok => false
-    | _, _ => true
-  let fails := (judged.zip vs).filterMap fun ((toks, _, _), v) =>
-    match v with
-    | .ok => none
-    | .pointsWrong => some ("points-mismatch", toks)
-    | .listingWrong => some ("listing-mismatch", toks)
-    | .noAnswer => some ("no-answer", toks)
+  -- replay the history to classify each failing observation
+  let rec walk (a : Abs) (snapped : List (Nat × Bytes × Tags)) (ndel : Nat) :
+      List (List String × Op × Ans) → List (String × List String)
+    | [] => []
+    | (toks, op, ans) :: rest =>
+      match op, ans with
+      | .write sh name tags pts, .ok => walk (a.write sh name tags pts) snapped ndel rest
+      | .del lo hi pred _, .ok => walk (a.delete lo hi pred) snapped (ndel + 1) rest
+      | .snap sh, .ok =>
+        walk a (snapped ++ (a.filter fun e => e.shard = sh ∧ !e.pts.isEmpty).map fun e => (sh, e.name, e.tags)) ndel rest
+      | _, _ =>
+        let v := match op, ans with
+          | .del .., _ => Verd.noAnswer
+          | .read sh, .other s => if (sh < 1 ∨ nsh < sh) ∧ s = "bad-op" then .ok else .noAnswer
+          | .ls sh, .other s => if (sh < 1 ∨ nsh < sh) ∧ s = "bad-op" then .ok else .noAnswer
+          | _, _ => Spec.C17.judgeObs a op ans
+        let here := match v with
+          | .ok => []
+          | .pointsWrong => [("points-mismatch", toks)]
+          | .noAnswer => [("no-answer", toks)]
+          | .listingWrong =>
+            -- a series (measurement) without data that is still listed, after its values went to a
+            -- TSM file and were removed by several separate range deletes: the file keeps the key
+            let zombie : Bool := ndel ≥ 2 && (match op, ans with
+              | .ls sh, .ids l =>
+                let live := (a.filter fun e => e.shard = sh ∧ !e.pts.isEmpty).map Spec.C17.keyOf
+                live.all l.contains && l.all fun x => live.contains x || snapped.contains (sh, x.1, x.2)
+              | .mn .., .keys l =>
+                let live := (a.filter fun e => !e.pts.isEmpty).map (·.name)
+                live.all l.contains && l.all fun m => live.contains m || snapped.any fun x => x.2.1 = m
+              | _, _ => false)
+            [(if zombie then "series-listed-without-data-after-separate-tsm-deletes" else "listing-mismatch", toks)]
+        here ++ walk a snapped ndel rest
+  let fails := walk [] [] 0 goodT
+  let pick (s : String) := fails.find? (·.1 = s)
   let chosen : String × List String :=
     if !badLines.isEmpty then ("bad-line", (badLines.head?.map (·.1)).getD [])
     else if !eok then ("epoch-blocking", (eobs.head?.map (·.1)).getD [])
-    else fails.headD ("unknown", [])
+    else match pick "points-mismatch" with
+      | some x => x
+      | none => match pick "listing-mismatch" with
+        | some x => x
+        | none => match pick "no-answer" with
+          | some x => x
+          | none => fails.headD ("unknown", [])
   -- the history up to the first failing observation makes the reason self-contained
   let has (p : Op → Bool) := good.any fun (op, _) => p op
   let tags :=
